@@ -109,6 +109,17 @@ def seq_engine(graph, fn, *, worker_count=None, max_errors=0, scheduler=None):
 
 
 def install_engine():
+    """Replace the thread engine by the sequential stand-in wherever uberjob can reach it: every loaded uberjob module that binds
+    the name (however it imported it), including the defining module itself."""
+    import uberjob._execution.run_function_on_graph as _rfg_mod
+
+    real = getattr(_rfg_mod, "_verif_real_engine", None) or _rfg_mod.run_function_on_graph
+    _rfg_mod._verif_real_engine = real
+    for name, mod in list(sys.modules.items()):
+        if name == "uberjob" or name.startswith("uberjob."):
+            for attr, val in list(vars(mod).items()):
+                if val is real:
+                    setattr(mod, attr, seq_engine)
     _caching.run_function_on_graph = seq_engine
     _rp.run_function_on_graph = seq_engine
 
